@@ -375,6 +375,74 @@ func (p Program) ProfileYAML() string {
 // Ref evaluates formulas over a symbolic graph.
 type Ref struct {
 	G *Graph
+	// Strict: a path composes through every resource that is referred to, also one without a node
+	// object of its own (an id that is only ever the value of properties: JSON-LD flattening lists no
+	// node for it) - `a / b^` leads from x over such a y to every z with z b y. Without Strict, mid-path
+	// resources must be nodes of the document (what the implementation does: its mid-path dereference
+	// looks the id up among the nodes).
+	Strict bool
+}
+
+// resources: indices 0..N-1 are the nodes, index N (when the scope has one) the dangling reference.
+func (r *Ref) resources() int {
+	if r.Strict && r.G.Dangling() {
+		return r.G.N + 1
+	}
+	return r.G.N
+}
+
+// denRes: the resources reached from resource i.
+func (r *Ref) denRes(p Path, i int) []*smt.Term {
+	g := r.G
+	R := r.resources()
+	out := make([]*smt.Term, R)
+	for j := range out {
+		out[j] = smt.False
+	}
+	switch x := p.(type) {
+	case PProp:
+		if x.Inverse {
+			for j := 0; j < g.N; j++ {
+				out[j] = smt.And(g.Exists[j], g.HasValue(j, x.Pred, r.refIndex(i)))
+			}
+		} else if i < g.N {
+			for t := 0; t < R; t++ {
+				guard := smt.And(g.Exists[i], g.HasValue(i, x.Pred, r.refIndex(t)))
+				if !r.Strict {
+					guard = smt.And(guard, g.Exists[t])
+				}
+				out[t] = guard
+			}
+		}
+	case PType:
+	case PSeq:
+		cur := r.denRes(x.Parts[0], i)
+		for _, part := range x.Parts[1:] {
+			next := make([]*smt.Term, R)
+			for j := range next {
+				next[j] = smt.False
+			}
+			for k := 0; k < R; k++ {
+				if cur[k].IsFalse() {
+					continue
+				}
+				step := r.denRes(part, k)
+				for j := 0; j < R; j++ {
+					next[j] = smt.Or(next[j], smt.And(cur[k], step[j]))
+				}
+			}
+			cur = next
+		}
+		out = cur
+	case PAlt:
+		for _, part := range x.Parts {
+			d := r.denRes(part, i)
+			for j := range out {
+				out[j] = smt.Or(out[j], d[j])
+			}
+		}
+	}
+	return out
 }
 
 // item keys: "n:<j>" a node, "v:<text>" a literal / raw value
@@ -389,6 +457,13 @@ func (r *Ref) DenNodes(p Path, i int) []*smt.Term {
 	out := make([]*smt.Term, g.N)
 	for j := range out {
 		out[j] = smt.False
+	}
+	if r.Strict {
+		res := r.denRes(p, i)
+		for j := range out {
+			out[j] = smt.And(res[j], g.Exists[j])
+		}
+		return out
 	}
 	switch x := p.(type) {
 	case PProp:
@@ -483,28 +558,44 @@ func (r *Ref) denValues(p Path, i int) []Item {
 			for j := 0; j < g.N; j++ {
 				out = append(out, Item{nodeKey(j), j, nil, smt.And(g.Exists[j], g.HasValue(j, x.Pred, r.refIndex(i)))})
 			}
-		} else {
+		} else if i < g.N {
 			for k, pv := range g.Pool {
-				out = append(out, Item{valueKey(pv.V), -1, pv.V, g.HasValue(i, x.Pred, k)})
+				guard := g.HasValue(i, x.Pred, k)
+				if r.Strict {
+					guard = smt.And(g.Exists[i], guard)
+				}
+				out = append(out, Item{valueKey(pv.V), -1, pv.V, guard})
 			}
 		}
 		return mergeItems(out)
 	case PType:
 		var out []Item
+		if i >= g.N {
+			return nil
+		}
 		for c, cls := range g.Classes {
-			out = append(out, Item{valueKey(ast.String(cls)), -1, ast.String(cls), g.HasClass[i][c]})
+			guard := g.HasClass[i][c]
+			if r.Strict {
+				guard = smt.And(g.Exists[i], guard)
+			}
+			out = append(out, Item{valueKey(ast.String(cls)), -1, ast.String(cls), guard})
 		}
 		return mergeItems(out)
 	case PSeq:
 		prefix := PSeq{x.Parts[:len(x.Parts)-1]}
 		var mids []*smt.Term
-		if len(prefix.Parts) == 1 {
+		switch {
+		case r.Strict && len(prefix.Parts) == 1:
+			mids = r.denRes(prefix.Parts[0], i)
+		case r.Strict:
+			mids = r.denRes(prefix, i)
+		case len(prefix.Parts) == 1:
 			mids = r.DenNodes(prefix.Parts[0], i)
-		} else {
+		default:
 			mids = r.DenNodes(prefix, i)
 		}
 		var out []Item
-		for k := 0; k < g.N; k++ {
+		for k := 0; k < len(mids); k++ {
 			if mids[k].IsFalse() {
 				continue
 			}
